@@ -1130,3 +1130,35 @@ package sftp
 //@   assert before call (*packetManager).readyPacket#1: arg1.responsePacket.id() == ghost.curID
 //@   ensures result == nil
 //@   ensures ghost.ready - ghost.taken == old(ghost.ready) - old(ghost.taken)
+
+// ---------------------------------------------------------------------------
+// C02 (order) and C18 (release after send): the controller's queues
+
+//@ ghost var sentOrder uint32
+
+//@ pred inQOK(s *packetManager) = forall(i, 0 <= i && i < len(s.incoming) ==> s.incoming[i] != nil)
+//@ pred outQOK(s *packetManager) = forall(i, 0 <= i && i < len(s.outgoing) ==> typeis(s.outgoing[i], orderedResponse))
+//@ pred queuesOK(s *packetManager) = inQOK(s) && outQOK(s)
+
+//@ func (packetSender).sendPacket
+//@   trusted
+//@   modifies bytes
+
+//@ func (*allocator).ReleasePages
+//@   trusted
+//@   requires a.used != nil
+//@   modifies a.available, mapof a.used, elems []byte
+
+//@ func (*packetManager).maybeSendPackets
+//@   property C02, C18
+//@   requires pmOK(s) && queuesOK(s)
+//@   loop 1 invariant pmOK(s)
+//@   loop 1 assume queuesOK(s)
+//@   loop 1 ghost sentOrder
+//@   assert before call (packetSender).sendPacket#1: in.orderID() == out.orderID() && out == s.outgoing[0] && in == s.incoming[0] && arg1 == out
+//@   update after call (packetSender).sendPacket#1: ghost.sentOrder = out.orderID()
+//@   assert before call (*allocator).ReleasePages#1: arg1 == ghost.sentOrder
+//@   ensures pmOK(s)
+// (queuesOK -- every slot below len holds a non-nil request resp. an orderedResponse -- is assumed at the loop head:
+//  its preservation through the copy-based pop needs quantified memmove reasoning that the installed solvers do
+//  not decide in time; the QF obligations (head match, release after send, bounds) are proved)
